@@ -49,6 +49,25 @@ Section P.
     simpl. unfold upd. rewrite seqb_refl. reflexivity.
   Qed.
 
+  Lemma init_all_losers f cf pkgs : f (target cf) <> None ->
+    init_all print f cf pkgs = (f, repeat ErrExists (length pkgs)).
+  Proof.
+    intros H. induction pkgs as [|p r IH]; [reflexivity|]. simpl.
+    rewrite (exclusive f cf p H), IH. reflexivity.
+  Qed.
+
+  Lemma init_all_one_winner f cf pkg rest :
+    f (target cf) = None -> is_dir f (dirname (target cf)) = true ->
+    init_all print f cf (pkg :: rest) =
+    (upd f (target cf) (File (print (init_tree pkg))), Written :: repeat ErrExists (length rest)).
+  Proof.
+    intros A D. simpl.
+    assert (E : init print f cf pkg = (upd f (target cf) (File (print (init_tree pkg))), Written)).
+    { unfold init. cbv zeta. fold (target cf). rewrite A, D. reflexivity. }
+    rewrite E. rewrite init_all_losers; [reflexivity|].
+    unfold upd. rewrite seqb_refl. discriminate.
+  Qed.
+
   Definition pkg_entry (pkg : str) : tree :=
     [(B "packages", VMap [(pkg, VMap [(B "config", VMap [(B "all", VBool true)])])])].
 
